@@ -249,10 +249,11 @@ def _rand_ts(kind, rng):
     dd = rng.randint(1, dim)
     if kind == "date":
         return {"k": "ts", "y": y, "mo": mo, "dd": dd, "h": 0, "mi": 0, "s": 0, "ns": 0, "off": 0}
-    h = rng.choice([x for x in range(24) if x not in (3, 4)])      # never the seed's time of day
+    h = rng.randint(0, 23)
     off = rng.choice((0, rng.randint(-840, 840), rng.choice((-480, -300, 60, 120, 330, 540))))
     ns = rng.choice((0, 0, rng.randint(1, 999999999), rng.randint(1, 999) * 1000000))
-    return {"k": "ts", "y": y, "mo": mo, "dd": dd, "h": h, "mi": rng.randint(0, 59), "s": rng.randint(0, 59), "ns": ns, "off": off}
+    mi = rng.choice([m for m in range(60) if (m - off) % 60 not in (4, 5)])     # never the time of day of SeedFor's two candidates
+    return {"k": "ts", "y": y, "mo": mo, "dd": dd, "h": h, "mi": mi, "s": rng.randint(0, 59), "ns": ns, "off": off}
 
 
 def concretise(cell, rng):
@@ -467,12 +468,18 @@ def load_cells(r):
 
 
 def plan_cases(cells, combos, thorough, rng):
-    """which (cell, combo, repetition) are executed: thorough = the whole product; quick = every cell once on a
-    rotating combo, plus the whole combo list on two cells of every type"""
+    """which (cell, combo) are executed.
+    thorough: every cell on every single-row path (5) and on both nullable variants of insert, plus two of the remaining
+              combinations in rotation (the big timestamp grid: three paths + one other combination, in rotation);
+              4 draws per range class and combination.
+    quick:    every cell once on a rotating combination, plus the whole combination list on one cell of every type; 2 draws."""
     cases = []
     bytype = {}
     for c in cells:
         bytype.setdefault(c["type"], []).append(c)
+    singles = [cb for cb in combos if cb[1] == "single" and cb[2] == "unspec"]
+    nullins = [cb for cb in combos if cb[0] == "insert" and cb[2] != "unspec"]
+    rest = [cb for cb in combos if cb not in singles and cb not in nullins]
     for t, cs in sorted(bytype.items()):
         core = set()
         if not thorough:
@@ -483,10 +490,10 @@ def plan_cases(cells, combos, thorough, rng):
         for i, c in enumerate(cs):
             reps = 1 if c["fixed"] else (4 if thorough else 2)
             if thorough:
-                mine = combos
-                if c["kind"] in ("timestamp",) and c["cls"] == "grid" and c["form"] == "rfc3339":
-                    # the big grid: every cell on the five single-row paths, the other shapes in rotation
-                    mine = [cb for cb in combos if cb[1] == "single" and cb[2] == "unspec"] + [combos[(i + rot) % len(combos)]]
+                if c["kind"] == "timestamp" and c["cls"] == "grid" and c["form"] == "rfc3339":
+                    mine = [singles[(i + rot + j) % len(singles)] for j in range(3)] + [(nullins + rest)[(i + rot) % len(nullins + rest)]]
+                else:
+                    mine = singles + nullins + [rest[(i + rot + j) % len(rest)] for j in range(2)]
             elif i in core:
                 mine = combos
             else:
@@ -617,6 +624,10 @@ def run():
         r = vf.tlc_ok(vf.tlc(SPEC, "RowValues_Gen", "RowValues_Gen%s.cfg" % sfx, sd, workers=2, timeout=900), "RowValues model + cells")
         chk.add_tlc(r, "model check of the documented pipeline (all cells) + cell generation")
         cells, combos = load_cells(r)
+        only = [t for t in os.environ.get("VERIF_C18_ONLY", "").split(",") if t]     # development aid: restrict to some column types
+        if only:
+            cells = [c for c in cells if c["type"] in only]
+            chk.notes.append("restricted to column types %s by VERIF_C18_ONLY (development run)" % only)
         # 2. negative control: the as-is decode/bind variant must violate RoundTrip (the invariant is not vacuous)
         rn = vf.tlc(SPEC, "RowValues", "RowValues_MC_asis.cfg", sd, workers=2, timeout=900)
         if rn.violated != "RoundTrip":
@@ -625,6 +636,8 @@ def run():
         # 3. concretise and execute on the real server
         if replay:
             rp = json.load(open(replay))["replay"]
+            for c in rp["cases"]:
+                c.setdefault("has2", True)
             cases_utc = [dict(c, id=i) for i, c in enumerate(rp["cases"]) if c["tz"] == "UTC"]
             cases_ny = [dict(c, id=len(cases_utc) + i) for i, c in enumerate(c for c in rp["cases"] if c["tz"] != "UTC")]
         else:
@@ -632,8 +645,7 @@ def run():
             every = 1 if thorough else 2
             cases_utc = make_cases(plan, rng, "UTC", every)
             tplan = [p for p in plan if p[0]["kind"] in ("timestamp", "date", "time")]
-            if not thorough:
-                tplan = [p for i, p in enumerate(tplan) if i % 4 == vf.SEED % 4]
+            tplan = [p for i, p in enumerate(tplan) if i % (2 if thorough else 4) == vf.SEED % 2]
             cases_ny = make_cases(tplan, rng, "America/New_York", every)
             for c in cases_ny:
                 c["id"] += len(cases_utc)
@@ -650,7 +662,7 @@ def run():
         if len(recs) != len(bycase) - len(setupfail):
             raise vf.NoVerdict("driver lost cases: %d of %d" % (len(recs), len(bycase)))
         accepted = [x for x in recs if not x["rejected"]]
-        if not replay:
+        if not replay and not only:
             if len(setupfail) > len(bycase) // 20:
                 raise vf.NoVerdict("the seed row of %d cases was refused (server not usable): %s" % (len(setupfail), setupfail[0]["note"]))
             if len(accepted) < len(recs) // 2:
@@ -698,7 +710,7 @@ def run():
             if not key or not key.endswith("/" + mode):
                 raise vf.NoVerdict("binding self-test failed: a corrupted %s record (%s) was not flagged as %s (got %s)"
                                    % (c["type"], c["path"], mode, key))
-        if not replay and len(tests) < 6:
+        if not replay and not only and len(tests) < 6:
             raise vf.NoVerdict("binding self-test too weak: only %d corrupted records" % len(tests))
         chk.cov["binding_selftest"] = "%d corrupted copies of real records (one per kind of value + a refused-but-present insert) all flagged" % len(tests)
         for i in sorted(badidx):
@@ -728,10 +740,12 @@ def run():
                 refused[kk] = refused.get(kk, 0) + 1
         chk.cov["refused_classes"] = dict(sorted(refused.items())[:60])
         chk.cov["rule"] = ("cells = every (column type, value class, spelling) of RowValueDefs printed by TLC while it model-checks the pipeline; "
-                           "cases = cells x (path, payload shape, nullable attribute) [thorough: whole product, 4 draws per range class; quick: every cell on one "
-                           "rotating combination + every combination on one cell per type, 2 draws]; each case = PUT/PATCH then GET (all columns; and ?columns=v: always in thorough, every 2nd case in quick) on a real server; "
+                           "cases = cells x (path, payload shape, nullable attribute) [thorough: every cell on all 5 single-row paths + both nullable variants "
+                           "of insert + 2 other combinations in rotation (the rfc3339 timestamp grid: 3 paths + 1 other, in rotation), 4 draws per range class; "
+                           "quick: every cell on one rotating combination + every combination on one cell per type, 2 draws]; time-valued cases are repeated "
+                           "(1/2 thorough, 1/4 quick) on a second server running in America/New_York; each case = PUT/PATCH then GET (all columns; and ?columns=v: always in thorough, every 2nd case in quick) on a real server; "
                            "non-trivial+distinct = distinct (type, class, spelling, path, concrete value) whose write was accepted and therefore judged by Same()")
-        chk.cov["exhaustive"] = bool(thorough)
+        chk.cov["exhaustive"] = False      # the cell table is enumerated completely; range classes and request shapes are sampled
         for x in (accepted[:2] + [y for y in recs if y["rejected"]][:1] + [y for y in accepted if y["in"]["k"] == "ts"][:1]):
             chk.sample({"kind": "logged pair", "type": x["type"], "class": x["cls"], "form": x["form"], "path": x["path"], "shape": x["shape"],
                         "sent": x.get("intext"), "write_status": x.get("wstatus"), "read_back": x.get("outtext"), "in": x["in"], "out": x["out"]})
